@@ -1,13 +1,16 @@
 import Zog.Props.FactsOK
 import Zog.Laws
 import Zog.Coerce
+import Zog.Views
 
 /-!
 # C14 — all input front ends are equivalent views of the same record   (partial: D17)
 The front ends differ in (a) which struct tag names a key, (b) how a missing key reads (nil for
-maps and JSON, "" for form / query / env), (c) string-typed leaves. The lemmas below show these
-differences are invisible to the engine at depth 1; below depth 1 the real code re-derives the
-provider from the raw sub-value (known finding D17), which the model mirrors.
+maps and JSON, "" for form / query / env), (c) string-typed leaves. The node lemmas below show
+these differences are invisible to a node; `whole_record_flat_vs_map` lifts them to a whole flat
+record (every field, every visit order, the struct's own tests and PostTransforms included);
+`atoi_inverts_itoa` is the general round trip of decimal renderings. Below depth 1 the real code
+re-derives the provider from the raw sub-value (known finding D17), which the model mirrors.
 -/
 
 namespace Zog.Props.C14
@@ -62,8 +65,62 @@ theorem bool_rendering (b : Bool) : coerceBool (.str (if b then "true" else "fal
 /-- a string leaf is itself under every front end -/
 theorem string_rendering (ext : Ext) (s : String) : coerceString ext (.str s) = s := rfl
 
-/-- decimal renderings parse back (instances; the general statement `atoi (toString n) = n` is
-    validated by the S-front and S-coerce streams, not proved) -/
+/-- **decimal renderings parse back**: `strconv.Atoi (strconv.Itoa n) = n` for every 64-bit integer -/
+theorem atoi_inverts_itoa (n : Int) (hlo : minInt64 ≤ n) (hhi : n ≤ maxInt64) : atoi (toString n) = some n :=
+  atoi_toString n hlo hhi
+
+/-- …and the three integer schema kinds therefore read a number's rendering as the number -/
+theorem int_schemas_read_renderings (ext : Ext) (k : NKind) (hk : k = .int ∨ k = .i64 ∨ k = .i32) (n : Int)
+    (hlo : minInt64 ≤ n) (hhi : n ≤ maxInt64) :
+    coerceNum ext k (.str (toString n)) = coerceNum ext k (.int .int n) :=
+  default_int_reads_rendering ext k hk n hlo hhi
+
+/-- **The whole record, at depth 1.** One logical record presented by a flat source (form, query
+    string, environment: string leaves, `""` for a missing key, a list only when repeated) and by a
+    map source (Go map, decoded JSON: native leaves, nil for a missing key): for EVERY struct schema
+    whose fields are named alike by both sources and read leaves their coercer reads alike
+    (`FieldOK`), every source tag, visit order and destination, the two executions return the same
+    destination, the same issues (paths, codes, messages) and the same callback log. -/
+theorem whole_record_flat_vs_map (env : Env) (r : Record) (hr : r ≠ []) (tag : Option String)
+    (fs : Fields) (tests : List Test) (posts : List Post)
+    (hfs : ∀ k fm s, (k, fm, s) ∈ fs.toList → FieldOK r tag k fm s) (d : DVal) :
+    Spec.run env .parse (.struct fs tests posts) tag (.flat (flatView r)) d =
+    Spec.run env .parse (.struct fs tests posts) none (.obj (mapView r)) d :=
+  flat_and_map_views_agree env r hr tag fs tests posts hfs [] d {}
+
+/-- the same for the mechanism model under the regenerated code facts -/
+theorem whole_record_flat_vs_map_engine (env : Env) (r : Record) (hr : r ≠ []) (tag : Option String)
+    (fs : Fields) (tests : List Test) (posts : List Post)
+    (hfs : ∀ k fm s, (k, fm, s) ∈ fs.toList → FieldOK r tag k fm s) (d : DVal) :
+    Engine.run env Gen.facts .parse (.struct fs tests posts) tag (.flat (flatView r)) d =
+    Engine.run env Gen.facts .parse (.struct fs tests posts) none (.obj (mapView r)) d := by
+  rw [engine_is_spec, engine_is_spec]
+  exact whole_record_flat_vs_map env r hr tag fs tests posts hfs d
+
+/-- non-vacuity: a two-field schema (a string and an int with the default coercers, the int field
+    renamed by a `form` tag that both sources… do not share — so the zog tag names it) and a record
+    with one of the fields missing meet the hypotheses -/
+example (ext : Ext) :
+    let age : Prim := { kind := .num .int, coerce := coerceNum ext .int }
+    let name : Prim := { kind := .str, coerce := fun v => some (.str (coerceString ext v)) }
+    let fs := Fields.cons "name" { goName := "Name" } (.prim name)
+              (Fields.cons "age" { goName := "Age", tags := [("zog", "years")] } (.prim age)
+              (Fields.cons "nick" { goName := "Nick" } (.ptr (.prim name) (.str "") none) Fields.nil))
+    let r : Record := [("name", .str "Ann"), ("years", .int 41)]
+    ∀ k fm s, (k, fm, s) ∈ fs.toList → FieldOK r (some "form") k fm s := by
+  intro age name fs r k fm s hm
+  simp only [fs, Fields.toList, List.mem_cons, Prod.mk.injEq, List.not_mem_nil, or_false] at hm
+  rcases hm with ⟨rfl, rfl, rfl⟩ | ⟨rfl, rfl, rfl⟩ | ⟨rfl, rfl, rfl⟩
+  · refine ⟨by decide, by decide +kernel, ?_⟩
+    simp [r, Engine.keyFor, lookupD, LeafOK]
+  · refine ⟨by decide, by decide +kernel, ?_⟩
+    have h := default_int_reads_rendering ext .int (.inl rfl) 41 (by decide) (by decide)
+    simp only [r, Engine.keyFor, lookupD, LeafOK, age]
+    exact ⟨by decide, by decide, h⟩
+  · refine ⟨by decide, by decide +kernel, ?_⟩
+    simp [r, Engine.keyFor, lookupD, absentBlind]
+
+/-- decimal renderings parse back (instances) -/
 theorem int_rendering_examples :
     atoi "0" = some 0 ∧ atoi "42" = some 42 ∧ atoi "-7" = some (-7) ∧
     atoi "9223372036854775807" = some 9223372036854775807 ∧ atoi "-9223372036854775808" = some (-9223372036854775808) := by
